@@ -48,6 +48,9 @@ func C20FreeRun(g, rounds int) []string {
 				defer wg.Done()
 				<-start
 				o := ops[(t+r)%len(ops)]
+				if r%2 == 0 {
+					o = ops[(r/2)%len(ops)] // every other round: all goroutines in the same operation, each on its own UE
+				}
 				if got := o.run(t); got != seq[fmt.Sprint(o.name, t)] {
 					mu.Lock()
 					if len(mism) < 5 {
